@@ -22,6 +22,10 @@ SPEC = {
         {"name": "st_gcc", "src": _SRC, "variant": "gasan",
          "configs": {"general": {"quick": 400, "thorough": 20000}, "small_labels_nofilt": {"quick": 200, "thorough": 10000},
                      "contiguous": {"quick": 200, "thorough": 10000}}, "chunk": 25},
+        # valgrind memcheck: use of uninitialised values (not visible to ASan/UBSan unless the value is a bool/enum)
+        {"name": "st_memcheck", "src": _SRC, "variant": "memcheck",
+         "configs": {"general": {"quick": 160, "thorough": 4000}, "small_labels_nofilt": {"quick": 80, "thorough": 2000},
+                     "contiguous": {"quick": 80, "thorough": 2000}}, "chunk": 10},
     ],
     "floors": {"quick": {"hist.reaches_dim3": 50, "state.empty_complex": 50, "state.upper_bound_above_dimension": 50,
                          "op.remove_maximal_simplex": 1000, "op.prune_above_filtration": 300, "op.prune_above_dimension": 300,
